@@ -164,9 +164,34 @@ func (s *EtcdStore) UpdateOffsets(ctx context.Context, topic string, partition i
 	ctx, cancel := context.WithTimeout(ctx, 3*time.Second)
 	defer cancel()
 	next := lastOffset + 1
-	_, err := s.client.Put(ctx, offsetKey(topic, partition), strconv.FormatInt(next, 10))
-	s.recordEtcdResult(err)
-	return err
+	key := offsetKey(topic, partition)
+	// The stored next offset is the durable high watermark: never move it back
+	// (flush callbacks of consecutive segments can arrive out of order). The value
+	// is a decimal string, so compare in Go and guard the write with the revision
+	// that was read; retry if another writer got in between.
+	for {
+		resp, err := s.client.Get(ctx, key)
+		if err != nil {
+			s.recordEtcdResult(err)
+			return err
+		}
+		cmp := clientv3.Compare(clientv3.CreateRevision(key), "=", 0)
+		if len(resp.Kvs) > 0 {
+			if cur, perr := strconv.ParseInt(strings.TrimSpace(string(resp.Kvs[0].Value)), 10, 64); perr == nil && cur >= next {
+				s.recordEtcdResult(nil)
+				return nil
+			}
+			cmp = clientv3.Compare(clientv3.ModRevision(key), "=", resp.Kvs[0].ModRevision)
+		}
+		txn, err := s.client.Txn(ctx).If(cmp).Then(clientv3.OpPut(key, strconv.FormatInt(next, 10))).Commit()
+		s.recordEtcdResult(err)
+		if err != nil {
+			return err
+		}
+		if txn.Succeeded {
+			return nil
+		}
+	}
 }
 
 func offsetKey(topic string, partition int32) string {
